@@ -314,13 +314,16 @@ class Outcome:
         self.findings = [f for f in load_findings() if prop in f.get("properties", []) and f.get("status", "open") == "open"]
         self.known_hits = {}
         self.violations = []
+        self.beyond = []                     # mismatches of validators that judge behaviour outside the listed property (never alarms)
         self.cov = dict(evaluations=0, distinct_nontrivial=0, samples=[], states=0, transitions=0,
                         traces_validated_against_impl=0, runs=[])
         self.assumptions = []
         self.nontrivial_keys = set()
 
     # ---- classes from a validator
-    def absorb(self, validator, checked, classes, is_bad=lambda c: c[0] == "BAD", nontrivial=lambda c: True, label=None, grouped=False):
+    def absorb(self, validator, checked, classes, is_bad=lambda c: c[0] == "BAD", nontrivial=lambda c: True, label=None, grouped=False, beyond=False):
+        """beyond=True: the validator judges behaviour OUTSIDE the statement of the listed property (specification growth, DESIGN 3.9 / 10):
+        a mismatch is reported (BEYOND-PROPERTY line + evidence) but never as a violation of the property - the property does not speak about it."""
         run = dict(validator=validator, label=label or validator, records=checked, classes=[])
         self.cov["evaluations"] += checked
         self.cov["traces_validated_against_impl"] += checked
@@ -371,6 +374,8 @@ class Outcome:
                 h = self.known_hits.setdefault(hit["id"], dict(f=hit, n=0, classes=[]))
                 h["n"] += c["n"]
                 h["classes"].append(key)
+            elif beyond:
+                self.beyond.append(dict(validator=validator, cls=key, n=c["n"], record=json.loads(rec) if rec else None))
             else:
                 self.violations.append(dict(validator=validator, cls=key, n=c["n"], record=json.loads(rec) if rec else None))
         self.cov["runs"].append(run)
@@ -405,6 +410,17 @@ class Outcome:
         if extra:
             cov.update(extra)
         cov["known_findings_seen"] = [dict(id=k, n=v["n"]) for k, v in sorted(self.known_hits.items())]
+        if self.beyond:
+            cov["beyond_property_mismatches"] = [dict(validator=b["validator"], cls=b["cls"], n=b["n"]) for b in self.beyond[:40]]
+            os.makedirs(REPLAYS, exist_ok=True)
+            for b in self.beyond[:20]:
+                h = hashlib.sha1(json.dumps(b, sort_keys=True).encode()).hexdigest()[:10]
+                path = os.path.join(REPLAYS, "%s-beyond-%s.json" % (self.prop, h))
+                with open(path, "w") as fh:
+                    json.dump(dict(property=self.prop, beyond_property=True, validator=b["validator"], cls=b["cls"], count=b["n"], record=b["record"]), fh, indent=1)
+                    fh.write("\n")
+                print("BEYOND-PROPERTY: near=%s validator=%s class=%s x%d record=%s (behaviour outside the property's statement differs from the specification; not a violation of %s)"
+                      % (self.prop, b["validator"], b["cls"], b["n"], path, self.prop), flush=True)
         if not cov["samples"]:
             cov["samples"] = ["(no sample recorded)"]
         ev = dict(property_id=self.prop, tier=self.tier, seed=self.seed, level=self.level, coverage=cov,
@@ -434,6 +450,12 @@ class Outcome:
 def stall_violation(out, st, what_driver):
     slots = [x.strip() for x in st.progress.split("\n") if x.strip() and not x.strip().endswith("\tidle")]
     out.add_violation([what_driver, "no-return", st.what[:80]], record=dict(in_flight=slots, worker=st.worker), validator="supervisor")
+
+
+def stall_beyond(out, st, what_driver):
+    """a driver of behaviour outside the listed property did not return: reported, never an alarm of the property"""
+    slots = [x.strip() for x in st.progress.split("\n") if x.strip() and not x.strip().endswith("\tidle")]
+    out.beyond.append(dict(validator="supervisor", cls=["BAD", what_driver, "no-return", st.what[:80]], n=1, record=dict(in_flight=slots, worker=st.worker)))
 
 
 def seed_tier():
